@@ -216,3 +216,36 @@ Definition expo_ok (scale : Z) (zero_count : N) (poff : Z) (pcounts : list N) (n
 (** ** info series *)
 Definition info_ok (no_target no_scope : bool) (target_present scope_present : bool) : bool :=
   Bool.eqb target_present (negb no_target) && Bool.eqb scope_present (negb no_scope).
+
+(** ** exemplars (a judge on the exporter's output; there is no theorem about exemplars).
+    An SDK exemplar: the attributes the view filtered out (keys as code points) and the measured value; an
+    exposed exemplar: its label pairs and value.  Prometheus limits an exemplar's labels to 128 runes in total
+    (trace_id and span_id included, 63 runes); when some exemplar of a data point cannot be represented, the
+    series is exposed without exemplars.  Otherwise at least one exemplar is exposed and every exposed one
+    carries the span's trace_id / span_id, the value of one of the SDK's exemplars and exactly that exemplar's
+    filtered attributes under sanitised names. *)
+Definition sdk_ex := (list attr * Z)%type.
+Definition out_ex := (list attr * Z)%type.
+
+Definition ex_runes (e : sdk_ex) : nat :=
+  fold_right (fun kv n => (length (fst kv) + length (snd kv) + n)%nat) 63%nat (fst e).
+
+Definition ex_unrepresentable (e : sdk_ex) : bool :=
+  (128 <? ex_runes e)%nat || negb (forallb (fun kv => label_name_legal (sanitise (fst kv))) (fst e)).
+
+Definition has_label (k v : bytes) (l : list attr) : bool :=
+  existsb (fun kv => bytes_eqb (fst kv) k && bytes_eqb (snd kv) v) l.
+
+Definition out_ex_ok (tid sid : bytes) (pex : list sdk_ex) (e : out_ex) : bool :=
+  has_label (str "trace_id") tid (fst e) && has_label (str "span_id") sid (fst e) &&
+  existsb (fun x => (snd x =? snd e)%Z &&
+                    forallb (fun kv => has_label (sanitise (fst kv)) (snd kv) (fst e)) (fst x) &&
+                    Nat.eqb (length (fst e)) (length (fst x) + 2)) pex.
+
+Definition exemplars_ok (tid sid : bytes) (pex : list sdk_ex) (sex : list out_ex) : bool :=
+  match pex with
+  | [] => match sex with [] => true | _ => false end
+  | _ => if existsb ex_unrepresentable pex
+         then match sex with [] => true | _ => false end
+         else match sex with [] => false | _ => forallb (out_ex_ok tid sid pex) sex end
+  end.
